@@ -40,16 +40,49 @@ def distribution(src, n=2, procs=2, lean=True, dist=('SINGLE_INSTANCE', 'SINGLE_
     application, dist_rule, plist = targets[0]
     ids = core.ids
     used = sorted({ids.index(i) for i, _ in reqs})
+    strat = application.rules.starting_strategy.name
     if reqs:
         src.reach('distributed')
         sit = plist[0][1]
+        by_name = {p.process_name: s for p, s in plist}
         if dist_rule == 'SINGLE_INSTANCE':
             src.check('single-instance', len(used) == 1, sig=dist_rule, used=used)
             total = sum(s['L'] for _, s in plist)
             s0 = dict(sit, pend=[0] * n)
             src.check('instance-carries-whole-sequence', P.node_load(s0, used[0]) + total <= 100, sig=dist_rule)
+            if len(used) == 1 and len(reqs) == len(plist):
+                # the instance chosen for the whole application follows the strategy among the instances able to
+                # carry the whole sequence (known and enabled for every program of it)
+                whole = dict(s0, L=total, known=[all(s['known'][i] for _, s in plist) for i in range(n)],
+                             enabled=[_all([s['enabled'][i] for _, s in plist]) for i in range(n)])
+                why = P.check_choice(whole, strat, used[0])
+                src.check('whole-application-follows-strategy', why is None, sig=f'{dist_rule}:{strat}', why=why)
         else:
-            src.check('single-node', len({sit['node'][i] for i in used}) == 1, sig=dist_rule, used=used)
+            nodes_used = {sit['node'][i] for i in used}
+            src.check('single-node', len(nodes_used) == 1, sig=dist_rule, used=used)
+            if len(nodes_used) == 1:
+                node = next(iter(nodes_used))
+                pend = [0] * n
+                for identifier, namespec in reqs:
+                    i = ids.index(identifier)
+                    s = by_name[namespec.split(':')[1]]
+                    on_node = [j for j in s['permitted'] if s['node'][j] == node]
+                    # within the node the strategy applies in the order declared by the application rule; both
+                    # readings of "starts already requested" (with / without the starts planned earlier in the same
+                    # distribution) are accepted
+                    why = P.check_choice(dict(s, permitted=on_node, pend=list(pend)), strat, i)
+                    if why is not None:
+                        why = P.check_choice(dict(s, permitted=on_node, pend=[0] * n), strat, i) and why
+                    src.check('strategy-within-the-node', why is None, sig=f'{dist_rule}:{strat}', why=why,
+                              namespec=namespec)
+                    pend[i] = pend[i] + s['L']
+
+
+def _all(flags):
+    out = True
+    for f in flags:
+        out = out & f if hasattr(f, 'e') or hasattr(out, 'e') else (out and f)
+    return out
 
 
 HARNESSES = [
